@@ -352,7 +352,9 @@ func vAbstractOps() []vOp {
 		{q: `{ node(id: "c1") { ... on Cat { name toy } ... on Dog { id } } }`},
 		{q: `{ node(id: "d1") { __typename ... on Cat { name toy } ... on Dog { id bone } } }`},
 		{q: `{ pets { name ... on Cat { toy lives } } }`, known: "abs-interface-field-plus-fragment"},
-		{q: `{ pets { id ... on Cat { toy } } }`, known: "abs-id-next-to-fragment"},
+		{q: `{ pets { id ... on Cat { toy } } }`},
+		{q: `{ pets { myid: id ... on Cat { toy } ... on Dog { bone } } }`},
+		{q: `{ things { ... on Cat { id toy } ... on Dog { bone } } }`},
 		{q: `{ things { __typename ... on Cat { toy } } }`, known: "abs-typename-next-to-union-fragment"},
 		{q: `{ pets { ... on Pet { name } } }`, known: "abs-fragment-on-interface"},
 	}
